@@ -519,6 +519,13 @@ class Interp(object):
         if k in ('UnaryOperator',) and n.get('op') in ('++', '--') and not n.get('post'):
             self.eval(fn, i, env)
             return self.lval(fn, n['ch'][0], env)
+        if k in ('BinaryOperator', 'CompoundAssignOperator') and n.get('op', '').endswith('=') and n.get('op') not in ('==', '!=', '<=', '>='):
+            r = self.eval(fn, i, env)
+            return r if isinstance(r, (Cell, tuple)) else self.lval(fn, n['ch'][0], env)
+        if k == 'ConditionalOperator':
+            if self.truth(self.rvalue(fn, n['cond'], env)):
+                return self.lval(fn, n['then'], env)
+            return self.lval(fn, n['else'], env)
         raise Unsupported('lvalue %s at %s' % (k, fn.loc(i)))
 
     def elem_ref(self, base, idx):
@@ -870,10 +877,27 @@ class Interp(object):
                     return o if len(n['ch']) > 2 else self.load(lv)
             if op == '[]':
                 return self.lval(fn, i, env)
-            if op in ('==', '!=') and len(n['ch']) == 3:
+            if op in ('==', '!=', '<', '<=', '>', '>=') and len(n['ch']) == 3:
                 a, b = self.rvalue(fn, n['ch'][1], env), self.rvalue(fn, n['ch'][2], env)
                 if isinstance(a, PV) and isinstance(b, PV):
                     return AV.const(1 if _pycmp(op, a.off, b.off) else 0)
+            if op in ('+', '-') and len(n['ch']) == 3:
+                a, b = self.rvalue(fn, n['ch'][1], env), self.rvalue(fn, n['ch'][2], env)
+                if isinstance(a, PV) and isinstance(b, AV):
+                    if not b.is_const():
+                        self.split_on(b.deps)
+                    return PV(a.arr, a.off + (b.lo if op == '+' else -b.lo))
+                if isinstance(a, PV) and isinstance(b, PV) and op == '-':
+                    return AV.const(a.off - b.off)
+            if op in ('+=', '-=') and len(n['ch']) == 3:
+                lv = self.lval(fn, objn, env)
+                a = self.load(lv)
+                b = self.rvalue(fn, n['ch'][2], env)
+                if isinstance(a, PV) and isinstance(b, AV):
+                    if not b.is_const():
+                        self.split_on(b.deps)
+                    self.store(lv, PV(a.arr, a.off + (b.lo if op == '+=' else -b.lo)))
+                    return lv
         if k == 'CXXMemberCallExpr':
             o = fn.obj(i)
             ov = self.rvalue(fn, o, env) if o is not None else None
@@ -927,6 +951,8 @@ class Interp(object):
                     return a0
             if len(args) == 1:
                 return self.rvalue(fn, args[0], env)
+            if not args:
+                return self.default_value(fn, t, 'tmp')
         if bcn == '__builtin_expect' and args:
             return self.rvalue(fn, args[0], env)
         if bcn == 'strlen' and args:
